@@ -23,3 +23,4 @@ def run(project, rep):
     rep.run(P.p_r8_single_tokenizer, project, rep)
     rep.run(P.p_r10_no_invented_end, project, rep)
     rep.run(P.p_r11_no_element_truthiness, project, rep)
+    rep.run(P.p_r14_feed_dispatches_the_current_match, project, rep)
